@@ -1,0 +1,34 @@
+//! Verification hook (compiled only with `--cfg ohsl_verif`): a thread-local log of every
+//! libm-backed `Complex::<f64>::sqrt` / `pow` / `polar` call.  Add-only; with the flag off
+//! the crate is unchanged.
+//!
+//! An entry is `(which, argument bits, result bits)`:
+//!   which = 0  sqrt   arguments [z.real, z.imag, 0, 0]
+//!   which = 1  pow    arguments [z.real, z.imag, w.real, w.imag]
+//!   which = 2  polar  arguments [r, theta, 0, 0]
+//! and the result is `[real, imag]`, everything as `f64::to_bits`.
+use std::cell::RefCell;
+
+pub type Entry = (u8, [u64; 4], [u64; 2]);
+
+thread_local! {
+    static LOG: RefCell<Option<Vec<Entry>>> = RefCell::new(None);
+}
+
+/// Start (or restart) recording on the current thread.
+pub fn start() {
+    LOG.with(|l| *l.borrow_mut() = Some(Vec::new()));
+}
+
+/// Stop recording and return what was recorded since `start()` (empty if never started).
+pub fn take() -> Vec<Entry> {
+    LOG.with(|l| l.borrow_mut().take().unwrap_or_default())
+}
+
+/// Called by the hooked functions; a no-op unless recording is on.
+#[inline]
+pub fn record(which: u8, args: [u64; 4], result: [u64; 2]) {
+    LOG.with(|l| {
+        if let Some(v) = l.borrow_mut().as_mut() { v.push((which, args, result)); }
+    });
+}
